@@ -52,11 +52,11 @@ def check(ctx, sc, uni, collect_only=False):
     for d in [o for o in wanted(sc, uni) if o.endswith(".dir")]:
         if d in src_eff and d not in before and d not in d1:
             undelivered = [f for f in uni.listing(d) if f not in d1]
-            ctx.oracle(bool(undelivered) or d in sc["fail"], case, {"why": "directory object withheld although all its files are present", "dir": d})
+            ctx.oracle(bool(undelivered) or d in fails, case, {"why": "directory object withheld although all its files are present", "dir": d})
             ctx.oracle(d in obs1["failed"], case, {"why": "withheld directory object not reported as failed", "dir": d,
                                                    "undelivered": undelivered, "failed": obs1["failed"]},
                        signature="withheld-dir-with-entry-missing-on-both-sides-not-reported-failed"
-                       if all((f not in src_eff and f not in before) or f in d1 for f in uni.listing(d)) and d not in sc["fail"] else None)
+                       if all((f not in src_eff and f not in before) or f in d1 for f in uni.listing(d)) and d not in fails else None)
     # retry completes
     d2 = set(obs2["dest"])
     avail = (set(src_eff) - set(vanish)) | before
